@@ -143,6 +143,7 @@ fn single_field_sweep(bits64: bool, section_only: bool) -> Vec<Item> {
         data_pages: 1,
         empty_first_note: false,
         text_skew: 0,
+        soname_last: false,
     };
     let built = elf::build(&spec);
     let mut out = Vec::new();
